@@ -52,9 +52,12 @@ func getSinfo(v any, omitEmpty bool) (st *sinfo) {
 	}
 	structMut.Lock()
 	defer structMut.Unlock()
+	verifHook("oj.sinfo.locked", nil)
+	defer verifHook("oj.sinfo.unlock", nil)
 	if st = sm[x]; st != nil {
 		return
 	}
+	verifHook("oj.sinfo.fill", nil)
 	return buildStruct(reflect.TypeOf(v), x, false, omitEmpty)
 }
 
